@@ -14,8 +14,8 @@ from typing import Any, Callable, Dict, Iterable, List, Optional
 from . import tlc as _tlc
 
 VERIF = _tlc.VERIF
-EVID = os.path.join(VERIF, "evidence")
-REPLAY = os.path.join(VERIF, "replay")
+EVID = os.environ.get("VERIF_EVIDENCE_DIR") or os.path.join(VERIF, "evidence")
+REPLAY = os.environ.get("VERIF_REPLAY_DIR") or os.path.join(VERIF, "replay")
 FINDINGS = os.path.join(VERIF, "known_findings.json")
 REPO = os.environ.get("VERIF_REPO", "/repo")
 
